@@ -30,13 +30,20 @@ def gen_rt(seed, tier="quick"):
             events[s["sid"]] = {"p": rng.choice([0.3, 0.7, 1.0]), "offsets": rng.choice([[1], [1, 2], [2, 3], [1, 5], [9]])}
     beh = {"kind": "rt", "K": K, "durations": durs, "events": events, "tb_next": [1, 2], "ev_next": [None, None, 1], "p_future": 0.0}
     scn = dict(scn, rt={"rt_factor": f, "time_resolution": r, "instant": instant, "strict": False})
+    if rng.random() < 0.25:
+        # the shipped LocalProxy: synchronous in-process simulators (a whole step completes before the next process starts)
+        scn["transport"] = "local"
+        scn["rt"]["instant"] = True
+        for s in scn["sims"]:
+            s["gen"] = True
     yield {"id": [seed, "rt"], "scn": scn, "seed": seed, "behaviour": beh, "policy": {"kind": "timer"}}
     strict = json.loads(json.dumps(scn))
     strict["rt"]["strict"] = True
     yield {"id": [seed, "strict"], "scn": strict, "seed": seed, "behaviour": beh, "policy": {"kind": "timer"}}
     if events and rng.random() < 0.5:
         # the same simulators outside real-time mode: set_event must be refused with an error to the caller
-        nort = {k: v for k, v in scn.items() if k != "rt"}
+        # (AsyncProxy only: the shipped LocalProxy does not deliver a call-back's exception into a generator-style step, the run just fails)
+        nort = {k: v for k, v in scn.items() if k not in ("rt", "transport")}
         nort["capture_log"] = True
         yield {"id": [seed, "nort"], "scn": nort, "seed": seed, "behaviour": dict(beh, kind="rt"), "policy": {"kind": "fifo"}}
 
@@ -62,7 +69,9 @@ def run(tier, seed):
         by.setdefault(c["id"][0], {})[c["id"][1]] = (c, r)
     items, owners = [], []
     for sd, d in by.items():
-        if "rt" in d and "strict" in d and d["rt"][1]["outcome"].get("phase") != "build":
+        # (synchronous in-process simulators keep stepping in their own process while the RuntimeError propagates; those
+        #  steps after the abort are not part of "what rt_strict changes", so the comparison uses the asynchronous transport)
+        if "rt" in d and "strict" in d and d["rt"][1]["outcome"].get("phase") != "build" and d["rt"][0]["scn"].get("transport") != "local":
             cs, cr = det.canon_of(d["rt"][1]["item"])
             sr = d["strict"][1]
             items.append({"canon": cs, "canon_r": sr["outcome"]["r"] if sr["outcome"]["r"] != "ok" else cr, "ev": sr["item"]["ev"]})
